@@ -253,5 +253,28 @@ class QuotedString(Suite):
         return Info('\\' in s or '"' in s, ['has_backslash'] * ('\\' in s) + ['has_dquote'] * ('"' in s))
 
 
-SUITES = [EnumShort(), RandomLong(), Authority(), QuotedString()]
+class FuzzStrings(Suite):
+    """Coverage-guided (Atheris) search over raw bytes decoded as UTF-8 (invalid sequences -> U+FFFD) into one string,
+    checked by the same oracle as the enumerated strings; falcon.util.uri is instrumented, so the short / long decoder
+    paths and the check-escaped heuristic give coverage feedback.  Seeds: a few escape-heavy strings."""
+
+    name = 'fuzz_strings'
+    budget = {'quick': 0, 'thorough': 0}
+    fuzz_runs = {'quick': 40000, 'thorough': 3000000}
+    fuzz_shards = {'quick': 4, 'thorough': 12}
+    fuzz_max_len = 200
+
+    def fuzz_corpus(self):
+        return [b'%E2%82%AC', b'a%2', b'%41%42%43%44%45%46%47%48%49', b'+%+%2B', b'%c3%A9%zz%']
+
+    def fuzz_decode(self, data):
+        return {'s': data.decode('utf-8', 'replace')}
+
+    def run(self, case):
+        s = case['s']
+        check_string(s)
+        return Info(nontrivial_string(s), labels_string(s))
+
+
+SUITES = [EnumShort(), RandomLong(), Authority(), QuotedString(), FuzzStrings()]
 KNOWN = {}
